@@ -239,6 +239,9 @@ pub fn c11() -> Outcome {
         f_of(F::Polynomial(poly(&[(&[1, 1, 2], 2.0), (&[], 1.0), (&[2, 1, 1], -1.0), (&[3], 0.5), (&[2, 1], 4.0)]))),   // degree 3 text, two distinct variables
         f_of(F::Polynomial(poly(&[(&[], 1.0), (&[1, 2], 2.0), (&[], 0.5), (&[2], -1.0), (&[], -3.0)]))),                         // several constant monomials
         f_of(F::Polynomial(poly(&[(&[1, 2, 3], 2.0), (&[3, 3, 3, 3], 0.5), (&[4, 1, 4, 2], -1.0), (&[1, 2], -2.0), (&[2, 1, 1], 2.0)]))), // three distinct variables
+        // a key whose running sum passes through zero and comes back: x1 x2 - x1^2 x2 + 2 x1 x2^2 = 2 x1 x2 on binaries
+        f_of(F::Polynomial(poly(&[(&[1, 2], 1.0), (&[1, 1, 2], -1.0), (&[1, 2, 2], 2.0), (&[3], 1.0), (&[3, 3], -1.0), (&[3], -0.5)]))),
+        f_of(F::Quadratic(quad(&[(1, 2, 1.5), (2, 1, -1.5), (1, 2, 0.25), (4, 4, 2.0), (4, 4, -2.0)], Some(lin(&[(4, 1.0), (4, -1.0), (4, 3.0)], 0.0))))),
     ];
     for (oi, o) in objs.iter().enumerate() {
         n += 1; d.insert((oi, 0));
@@ -301,7 +304,9 @@ pub fn c13() -> Outcome {
         f_of(F::Quadratic(quad(&[(1, 3, 1.0), (2, 2, 1.0)], Some(lin(&[(1, 0.5)], -2.0))))),
         f_of(F::Quadratic(quad(&[(3, 3, 1.0)], Some(lin(&[], -3.0))))),
         f_of(F::Linear(lin(&[(1, 1.5), (2, -0.5)], -2.5))),
+        f_of(F::Linear(lin(&[(1, 1.0), (3, 1.0)], -2.0))),                    // integer coefficients: range [-4, 3], the slack range is exactly 4
     ];
+    let unit_linear = |f: &Function| match f.function.as_ref() { Some(F::Linear(l)) => l.constant.fract() == 0.0 && l.terms.iter().all(|t| t.coefficient.fract() == 0.0), _ => false };
     let mk = |f: &Function| {
         // variables listed in an order that is not ascending (the largest id is not last)
         let mut i = inst(vec![dv(3, Kind::Integer, Some((-2.0, 2.0))), dv(7, Kind::Continuous, Some((0.0, 1.0))), dv(1, Kind::Integer, Some((0.0, 3.0))), dv(2, Kind::Binary, None)], Function::default(),
@@ -322,6 +327,8 @@ pub fn c13() -> Outcome {
                 if i != before { fail!(n, d, "the rejected conversion modified the instance ({e})"); }
                 if lo <= 0.0 && which == 1 { fail!(n, d, "add_integer_slack_to_inequality rejected a satisfiable inequality {f:?}: {e}"); }
                 if lo <= 0.0 && which == 0 && limit == 1000 { fail!(n, d, "convert_inequality_to_equality_with_integer_slack rejected {f:?} with a generous limit: {e}"); }
+                // integer coefficients, every variable once: the content factor is 1 and interval analysis is exact, so the slack range is -min f; it is rejected only ABOVE the limit
+                if which == 0 && unit_linear(f) && lo <= 0.0 && hi > 0.0 && -lo <= limit as f64 { fail!(n, d, "convert_inequality_to_equality_with_integer_slack rejected {f:?} although its slack range {} is within the caller's limit {limit}: {e}", -lo); }
             }
             Ok(b) => {
                 let removed = i.constraints.iter().all(|c| c.id != 4);
@@ -469,6 +476,15 @@ pub fn c16() -> Outcome {
             let mut k = lo; while k <= hi { if !(ib.lower() <= k && k <= ib.upper()) { fail!(n, d, "[{}, {}].as_integer_bound() = {ib:?} lost the integer {k}", a.0, a.1); } k += 1.0; }
             if (ib.lower().is_finite() && ib.lower().fract() != 0.0) || (ib.upper().is_finite() && ib.upper().fract() != 0.0) { fail!(n, d, "[{}, {}].as_integer_bound() = {ib:?} has non-integer endpoints", a.0, a.1); }
         }
+    }
+    // integer rounding of intervals with LARGE finite endpoints (big-M style bounds, beyond the range of i64): every float of that size is an integer
+    for (k, (lo, hi)) in [(-1e30, 1e30), (1e19, 2e19), (-3e19, 5.5), (-0.5, 4e25), (1.5e19, f64::INFINITY)].iter().enumerate() {
+        n += 1; d.insert((3500 + k, 0));
+        let ib = ommx::Bound::new(*lo, *hi).unwrap().as_integer_bound();
+        for v in [*lo, *hi, lo / 2.0 + hi / 2.0, 0.0, 5.0, 1e19, 2e19, -2e19] {
+            if v.is_finite() && v.fract() == 0.0 && *lo <= v && v <= *hi && !(ib.lower() <= v && v <= ib.upper()) { fail!(n, d, "[{lo}, {hi}].as_integer_bound() = {ib:?} lost the integer {v}"); }
+        }
+        if !valid(&ib) || ib.lower() < lo.floor() || ib.upper() > hi.ceil() { fail!(n, d, "[{lo}, {hi}].as_integer_bound() = {ib:?} is not a valid interval inside the rounded hull"); }
     }
     // evaluate_bound encloses f on the box
     let mut fs = plain_functions();
